@@ -48,6 +48,9 @@ type C05Case struct {
 	// Hist: the sending service provider was registered without signing requirement and / or with another certificate (the
 	// rogue key's) at first, used the IdP, and was then re-registered as the spec says.
 	Hist *History `json:"history,omitempty"`
+	// OrigFirst: the user agent first presents the original as the SP signed it (it is accepted or not - no matter), then the
+	// case's request arrives at the same provider instance: what was verified a moment ago lends nothing to what follows.
+	OrigFirst bool `json:"original_presented_first,omitempty"`
 }
 
 var c05PostMutations = []Defect{
@@ -98,6 +101,11 @@ func genC05Case(t *rapid.T) C05Case {
 			spec.SPs[i].EncKeyFirst = "rogue"
 		}
 	}
+	if len(spec.SPs[c.SP].KeyNames) > 0 && rapid.IntRange(0, 5).Draw(t, "certwindow") == 0 {
+		// the registered signing certificate has expired, or is not valid yet: whatever an IdP makes of that, it is no
+		// reason to accept what the key did not sign
+		spec.SPs[c.SP].KeyNames[0] += rapid.SampledFrom([]string{"@expired", "@future"}).Draw(t, "certwindowv")
+	}
 	c.Orig = genValidAuthn(t, spec, c.SP, c.Host)
 	maybePassive(t, &c.Orig)
 	c.Orig.ProtocolBinding = rapid.SampledFrom([]string{A, world.BindPost, world.BindRedirect}).Draw(t, "pb")
@@ -134,6 +142,7 @@ func genC05Case(t *rapid.T) C05Case {
 			}
 		}, false)
 	}
+	c.OrigFirst = rapid.IntRange(0, 3).Draw(t, "origfirst") == 0
 	n := rapid.SampledFrom([]int{0, 1, 1, 1, 2}).Draw(t, "nmut")
 	cat := c05PostMutations
 	if c.Binding == "redirect" {
@@ -655,6 +664,12 @@ func c05Run(c C05Case) c05Outcome {
 		w.Store.SetFaults([]world.Fault{{Op: "GetResponseSigningKey", Occurrence: 0, Kind: c.KeyFault}})
 	}
 	now := time.Now()
+	if c.OrigFirst && len(c.Mut) > 0 {
+		plain := c
+		plain.Mut = nil
+		obs.Do(w.Handler, c05Render(plain, now).HR)
+		w.Store.ResetLog()
+	}
 	rd := c05Render(c, now)
 	rep := obs.Do(w.Handler, rd.HR)
 	out := c05Outcome{kind: obs.Decode(rep).Kind}
